@@ -287,6 +287,9 @@ func (sp *sysPipe) queryWith(name string, qtype uint16, edns, do bool, client st
 	if sp.P.Resolver != nil {
 		var bs []string
 		for addr, n := range resolver.VerifC12BreakerFailures(sp.P.Resolver) {
+			if _, scripted := sp.T.W.AddrMap[addr]; !scripted {
+				continue // not an authority of this world (an address a fallback answer made up, say)
+			}
 			bs = append(bs, fmt.Sprintf("%s:%d", addr, n))
 		}
 		sort.Strings(bs)
